@@ -133,9 +133,12 @@ var semStats = map[string]int{}
 func semDiffers(c *Case, want, impl string) bool {
 	wf, imf := strings.Split(want, " "), strings.Split(impl, " ")
 	semStats["semantics:"+wf[0]]++
-	if wf[0] == "UNSPEC" {
+	if wf[0] == "UNSPEC" || wf[0] == "HANG" {
 		// the semantics is silent about the completion; the text must still be the same
 		semStats["unspec, engine:"+imf[0]]++
+		if wf[0] == "HANG" {
+			return false // the driver's evaluator ran out of time (long nested loops): no answer to compare
+		}
 		return len(wf) < 2 || len(imf) < 2 || wf[len(wf)-1] != imf[len(imf)-1]
 	}
 	return want != impl
@@ -198,6 +201,7 @@ type semGen struct {
 	vars  []semVar // locals in scope, innermost last
 	used  map[string]bool
 	fresh int
+	loops int // enclosing loops
 }
 
 var semParams = map[string]semTy{"n": semI, "k": semI, "s": semS, "t": semS, "b": semB, "li": semLI, "ls": semLS}
@@ -468,18 +472,24 @@ func (g *semGen) cmd(d int) string {
 	case 8:
 		// {for} over a range: one to three arguments, the step a positive literal
 		var args string
+		lim := g.intE(1)
+		if g.loops > 0 {
+			lim = fmt.Sprintf("%d", g.r.Intn(4)) // inside a loop: a few iterations (the driver's evaluator is a list machine)
+		}
 		switch g.r.Intn(3) {
 		case 0:
-			args = g.intE(1)
+			args = lim
 		case 1:
-			args = g.intE(1) + ", " + g.intE(1)
+			args = fmt.Sprintf("%d", g.r.Intn(3)) + ", " + lim
 		default:
-			args = g.intE(1) + ", " + g.intE(1) + ", " + fmt.Sprintf("%d", 1+g.r.Intn(4))
+			args = g.intE(0) + ", " + lim + ", " + fmt.Sprintf("%d", 1+g.r.Intn(4))
 		}
 		name := g.bindName()
 		mark := len(g.vars)
 		g.vars = append(g.vars, semVar{name, semI})
+		g.loops++
 		body := g.block(d - 1)
+		g.loops--
 		g.vars = g.vars[:mark]
 		return "{for $" + name + " in range(" + args + ")}" + body + "{/for}"
 	default:
@@ -504,7 +514,9 @@ func (g *semGen) cmd(d int) string {
 		name := g.bindName()
 		mark := len(g.vars)
 		g.vars = append(g.vars, semVar{name, et})
+		g.loops++
 		body := g.block(d - 1)
+		g.loops--
 		g.vars = g.vars[:mark]
 		s := "{foreach $" + name + " in " + list + "}" + body
 		if g.r.Bool() {
